@@ -16,6 +16,7 @@ from pathlib import Path
 from typing import Any, Dict, List
 
 from .core import Ctx, MachineryError
+from .projects import waiting_modules as P_waiting
 from . import projects as P
 
 CFG = """SPECIFICATION Spec
@@ -78,7 +79,7 @@ def run(ctx: Ctx, maxp: int, names: List[str]) -> Dict[str, int]:
         # source of a module before analysis: from its path
         def src_path(m: Any) -> int:
             return next((int(x[1:]) for x in Path(str(m.source_path)).parts if x.startswith("r") and x[1:].isdigit()), 0)
-        got = {"mods": [{"name": m.fullName().split("."), "pkg": isinstance(m, model.Package), "src": src_path(m)} for m in system.unprocessed_modules],
+        got = {"mods": [{"name": m.fullName().split("."), "pkg": isinstance(m, model.Package), "src": src_path(m)} for m in P_waiting(system)],
                "roots": [{"name": m.name, "src": src_path(m)} for m in system.rootobjects],
                "reg": sorted(([k.split("."), src_path(o)] for k, o in system.allobjects.items()), key=str)}
         want = {"mods": rec["mods"], "roots": rec["roots"], "reg": sorted(([e["k"], e["src"]] for e in rec["reg"]), key=str)}
